@@ -20,8 +20,9 @@ PROP = "C08"
 PROPERTY_FILE = "Properties/C08.v"
 GEN_DEPS = []
 RULE = ("one case = one engine run (standard / multilevel constant / multilevel adaptive / standard with a worker pool) on a "
-        "real model; configurations: seed in {None, 0, k}, fixed-date (1 or 3 dates) and jump-time mode, exact Levy and CTMC "
-        "processes, scripted level/pass histories (incl. levels deep-copied from a level that has already simulated, both "
+        "real model; configurations: seed in {None, 0, k}, fixed-date (1 or 3 dates) and jump-time mode, exact Levy, 1-d CTMC with "
+        "every sampler (ALIAS, TABLE = Python random stream, BST, HUFFMAN, INVERSION, BST-adapted) and 2-d copula CTMC "
+        "processes, pools at random clock values and at now = 13*123456789, scripted level/pass histories (incl. levels deep-copied from a level that has already simulated, both "
         "simulating again afterwards); non-trivial = at least 2 samples, at least one fresh draw, and (fixed-date "
         "mode) at least 2 pre-drawn rows popped")
 MODELLED = ["numpy's global generator and Python's random: abstract position spaces (stream, seed id, index); statistical "
@@ -39,43 +40,60 @@ ASSUMPTIONS = ["a run starts from price()/price_with_constant_mc_paths_and_level
 THEOREM_NOTES = {
     "C08_single_process_disjoint": "all three single-process entry points (standard price, multilevel price and "
         "price_with_constant_mc_paths_and_level), every seed option, clock value, mode, number of dates/dimension, every schedule "
-        "and level/pass history, every ambient generator state: NoDup of all positions consumed, NoDup of the popped row tags, "
-        "exactly one seed event (first), no re-seeding.  Model follows the tree with the three fix: commits of branch fix-rng",
+        "and level/pass history, every ambient generator state: NoDup of all positions consumed, NoDup of the popped row tags "
+        "(= every row at most once), exactly one seed event (first), no re-seeding, pairwise different positions compared by the "
+        "coupling decisions.  Model follows the tree with the fix: commits of branches fix-rng and fix-rng2",
+    "C08_no_underflow": "no popleft on an empty deque (IndexError in Python): unconditional for the standard engine and the "
+        "adaptive price(); for the constant multilevel run under the hypothesis that every level simulates n0 samples (the "
+        "model lets the history list fewer or more; the engine's loops produce exactly n0)",
     "C08_rows_exactly_once": "standard engine and constant multilevel run (fixed-date mode): created rows = popped rows, the deques "
-        "used are empty at the end, no underflow.  The adaptive multilevel price() pre-draws rows it never uses (initialisation(), "
-        "next_level() of an added level): consumed zero times (visible in Example C08_nonvacuous: deques 1,2,9,10 are never "
-        "popped); wasted variates, harmless for independence, not reported as a finding",
-    "C08_seeded_repeatable": "equality of the complete position traces from any two ambient generator states; that equal "
-        "positions give equal values (hence equal schedules, by induction along the run) is not formalised: the schedule is a "
-        "parameter common to both runs; monitored by the bit-for-bit comparison of two seeded runs on the implementation",
-    "C08_seeded_repeatable_adaptive": "closes most of that gap: every later instruction is an arbitrary function of the event "
-        "history (positions included, hence values), only the first instruction is required to be the seed, which holds for the "
-        "three engine models by definition; the class of decision functions that generate exactly std_ops/mlc_ops/mlp_ops is "
-        "not characterised",
-    "C08_pool_jump_mode_disjoint": "worker pool of the standard engine in jump-time mode, for every assignment of chunks to "
-        "workers; hypothesis: pairwise different worker seeds ((pid*int(time)) % 123456789 of live processes; not proved distinct)",
+        "used are empty at the end, no underflow.  For the adaptive price() exactly-once is FALSE: "
+        "C08_adaptive_price_exactly_once_refuted (finding F-C08-5, known: rows pre-drawn by initialisation() and by next_level() of "
+        "an added level are replaced before any pop); at-most-once is clause (2) of C08_single_process_disjoint",
+    "C08_seeded_repeatable": "for a GIVEN schedule/history shared by both runs; immediate from the model (first instruction = seed). "
+        "Not by itself the 'bit for bit' clause",
+    "C08_std_seeded_repeatable_derived": "standard engine: the schedule is derived by the run from the values (val : position -> "
+        "value and nxt : values seen -> next draw are universally quantified); two seeded runs from different ambient states derive "
+        "the same schedule, events and sample values; before the fix they do not (C08_std_derived_orig_refuted).  'Bit for bit' "
+        "additionally rests on: the real generators are deterministic functions of (seed, index) and float arithmetic is "
+        "deterministic -- monitored by the oracle's two runs per seeded configuration, compared bit for bit",
+    "C08_seeded_repeatable_adaptive": "any engine: every instruction after the first is chosen by an arbitrary function D of the "
+        "instructions executed and the events (positions, hence values); first instruction = seed => instructions chosen, events "
+        "and samples independent of the ambient state; C08_adaptive_run_is_run: an adaptive run is the run of the instructions it "
+        "chose.  For the multilevel engines the level/pass history is NOT derived from an allocation model (that is C05/C06): "
+        "their 'bit for bit' clause is this theorem plus the oracle's two runs per configuration",
+    "C08_pool_jump_mode_disjoint": "worker pool of the standard engine in jump-time mode, every assignment of chunks to workers, "
+        "worker seeds seed_of pid now = pid*2^32 + now (fix-rng2): distinct pids suffice (C08_seed_of_distinct).  Before that fix "
+        "the seeds were (pid*now) mod 123456789: equal exactly when 123456789 | (p-q)*now (C08_worker_seed_collision_exact), for "
+        "all workers at now = k*123456789 (C08_worker_seeds_collide_refuted; replayed on the implementation with the fake clock "
+        "at 13*123456789).  That np.random.seed([pid, now]) with different keys gives unrelated MT19937 streams is assumed",
     "C08_workers_share_rows_refuted": "finding F-C08-3 on the delivered tree (design of the pool): fixed-date mode with "
-        "nb_of_processes > 1; the multilevel engine builds the same pool in compute_level_l (covered by the oracle, not modelled)",
+        "nb_of_processes > 1; the multilevel engine builds the same pool in compute_level_l (covered by the oracle with seeded "
+        "and unseeded configurations, not modelled in Coq)",
     "C08_preseed_draws_refuted": "tree before the fix: commits (F-C08-1), kept as the machine-checked witness of the fix",
     "C08_reseed_per_level_refuted": "tree before the fix: commits (F-C08-2): seeded, and unseeded with two calls in the same second",
     "C08_seed_zero_refuted": "tree before the fix: commits (F-C08-4)",
-    "not_covered": "processes other than LevyProcess / MarkovChainProcess / CouplingMarkovChain (copula, SDE and series "
-        "processes have their own pre-draw code) and dimension > 1 are not traced; the actual chunking of a pool is whatever the OS "
-        "schedules (the theorems quantify over all chunkings, a run observes one); max_step_epsilon simulators are not reachable "
-        "from the engines",
+    "not_covered": "SDE and series processes and max_step_epsilon simulators are not traced; several product dates with a copula "
+        "process raise in MCLevyCopulaSimulationFixedTimes.project (F-C15-2), so dimension 2 is traced with one date and in "
+        "jump-time mode only; the coupling decisions of the copula coupling (u <= probability inside __coupling_state) are not "
+        "probed; the multilevel engine with a pool is oracle-only; the actual chunking of a pool is whatever the OS schedules "
+        "(the theorems quantify over all chunkings, a run observes one); nb_of_processes=None runs in the thorough tier only",
 }
 LEVEL_TEXT = ("Proof: Coq theorems (closed under the global context) about an executable model of the generators (abstract "
               "positions), the pre-drawn deques and the instruction sequences of both engines: for nb_of_processes = 1, every "
               "seed option, mode, schedule and level/pass history, all samples use pairwise disjoint variates, no pre-drawn row "
-              "is popped twice, the generator is seeded exactly once before the first draw, and a seeded run has a position "
-              "trace independent of the ambient generator state. The model is tied to the code by RNG tracing of real runs "
-              "(including real pathos pools) compared event by event inside Coq. For worker pools the property is refuted "
-              "(every chunk re-uses the same pre-drawn rows): theorem + KNOWN finding F-C08-3.")
+              "is popped twice, no pop hits an empty deque, the generator is seeded exactly once before the first draw, and a "
+              "seeded run (schedule derived from the values for the standard engine, arbitrary adaptive decisions for any engine) "
+              "has a trace independent of the ambient generator state. The model is tied to the code by RNG tracing of real runs "
+              "(all samplers incl. Python's random stream, 1-d and 2-d processes, real pathos pools) compared event by event inside "
+              "Coq. Refuted with known findings: worker pools in fixed-date mode re-use the same pre-drawn rows in every chunk "
+              "(F-C08-3); the adaptive price() pre-draws rows it never consumes (F-C08-5). 'Bit for bit' additionally rests on the "
+              "oracle's two runs per seeded configuration.")
 LEVEL_NOTE = ("Trusted: Coq kernel + vm_compute; the tracing harness (monkey-patched numpy.random / random / deque / Pool); the "
               "abstraction of MT19937 as a position space; schedules and histories are explicit parameters, not derived from values.")
 TECHNIQUE = "Coq proof (invariant over instruction lists, NoDup via count_occ) + RNG-trace correspondence by vm_compute + implementation oracle"
 
-M = 123456789
+M = 123456789        # modulus of the clock seed before the fix: commit of fix-rng2
 _ENV = {}
 
 
@@ -131,6 +149,20 @@ def env():
         def compute_times_grid(self, maturity):
             return TimeGrid(start=0.0, end=maturity, num=self.num)
 
+    from rpylib.product.underlying import MaximumOfPerformances
+    from rpylib.product.payoff import PayoffDates
+    from rpylib.model.utils import create_levy_copula_model, create_clayton_copula
+
+    class MaxPerfAtDates(MaximumOfPerformances):
+        """2-d underlying observed on a product grid with several dates"""
+
+        def __init__(self, spots, num):
+            super().__init__(spots)
+            self.num = num
+
+        def compute_times_grid(self, maturity):
+            return TimeGrid(start=0.0, end=maturity, num=self.num)
+
     def product(kind):
         if kind == "fwd1":
             return Product(payoff_underlying=Spot(), payoff=Forward(strike=100.0), maturity=0.25)
@@ -140,9 +172,21 @@ def env():
             df = lambda t: np.exp(-0.02 * t)  # noqa: E731
             return Product(payoff_underlying=DefaultTime(default_level=-0.05),
                            payoff=CDS(recovery_rate=0.4, spread=0.01, maturity=0.5, discounting=df), maturity=0.5)
+        spots = [100.0, 100.0]
+        if kind == "cfwd1":
+            return Product(payoff_underlying=MaximumOfPerformances(spots), payoff=Forward(strike=1.0), maturity=0.25)
+        if kind == "cfwd3":
+            return Product(payoff_underlying=MaxPerfAtDates(spots, 4), payoff=Forward(strike=1.0), maturity=0.75)
+        if kind == "cjmp":
+            pay = Forward(strike=1.0)
+            pay.payoff_dates_type = PayoffDates.STOCHASTIC      # jump-time simulation mode
+            return Product(payoff_underlying=MaximumOfPerformances(spots), payoff=pay, maturity=0.5)
         raise ValueError(kind)
 
     def model(name):
+        if name == "hem+merton":
+            ms = [create_exponential_of_levy_model(ModelType.HEM)(intensity=4), create_exponential_of_levy_model(ModelType.MERTON)(intensity=4)]
+            return create_levy_copula_model(models=ms, copula=create_clayton_copula())
         return create_exponential_of_levy_model({"hem": ModelType.HEM, "merton": ModelType.MERTON}[name])(intensity=6)
 
     _ENV.update(np=np, TR=rngtrace.TR, rt=rngtrace, product=product, model=model, CFG=CFG,
@@ -150,7 +194,8 @@ def env():
     return _ENV
 
 
-MODE = {"fwd1": (True, 1), "fwd3": (True, 3), "cds": (False, 1)}
+MODE = {"fwd1": (True, 1), "fwd3": (True, 3), "cds": (False, 1), "cfwd1": (True, 1), "cfwd3": (True, 3), "cjmp": (False, 1)}
+CONTINUOUS = {"fwd1", "fwd3", "cfwd1", "cfwd3", "cjmp"}        # payoffs whose value determines the path (no ties between paths)
 
 
 def set_ambient(E, rng):
@@ -160,16 +205,29 @@ def set_ambient(E, rng):
     random.seed(rng.randrange(1, 2 ** 31))
 
 
+def sampling_method(proc):
+    from rpylib.distribution.sampling import SamplingMethod as SM
+    return {"inv": SM.INVERSION, "bst1d": SM.BINARYSEARCHTREEADAPTED1D, "alias": SM.ALIAS, "table": SM.TABLE,
+            "bst": SM.BINARYSEARCHTREE, "huffman": SM.HUFFMANNTREE, "cop-bst": SM.BINARYSEARCHTREEADAPTED, "cop-inv": SM.INVERSION}[proc]
+
+
+def dim_of(cfg):
+    return 2 if cfg["proc"].startswith("cop-") else 1
+
+
 def make_process(E, proc, model_name):
+    """exact Levy simulation, 1-d CTMC with every sampler of the factory (TABLE draws from Python's `random`), 2-d CTMC of a
+    Levy copula model"""
     from rpylib.process.levyprocess import LevyProcess
     from rpylib.process.markovchain.markovchain import MarkovChainProcess
-    from rpylib.distribution.sampling import SamplingMethod
+    from rpylib.process.markovchain.markovchainlevycopula import MarkovChainLevyCopula
     from rpylib.grid.spatial import CTMCUniformGrid
     mdl = E["model"](model_name)
     if proc == "levy":
         return LevyProcess(mdl)
-    meth = {"inv": SamplingMethod.INVERSION, "bst1d": SamplingMethod.BINARYSEARCHTREEADAPTED1D}[proc]
-    return MarkovChainProcess(mdl, meth, CTMCUniformGrid(h=0.1, model=mdl))
+    if proc.startswith("cop-"):
+        return MarkovChainLevyCopula(mdl, CTMCUniformGrid(h=0.1, model=mdl), sampling_method(proc))
+    return MarkovChainProcess(mdl, sampling_method(proc), CTMCUniformGrid(h=0.1, model=mdl))
 
 
 def run_std(E, cfg, rng):
@@ -190,8 +248,7 @@ def run_std(E, cfg, rng):
         evs = TR.stop()
         E["CFG"].time = E["real_time"]
         E["CFG"].os = os
-    vals = [np.ravel(st._payoff_statistics.stats).tolist()]
-    return evs, TR.collect_workers() if cfg["nproc"] != 1 else {}, vals, float(np.ravel(st.price())[0])
+    return evs, TR.collect_workers() if cfg["nproc"] != 1 else {}, stored_values(evs), float(np.ravel(st.price())[0])
 
 
 class Script:
@@ -225,8 +282,11 @@ def run_ml(E, cfg, rng):
     from rpylib.grid.spatial import CTMCUniformGrid
     np, TR = E["np"], E["TR"]
     mdl = E["model"](cfg["model"])
-    meth = {"inv": SamplingMethod.INVERSION, "bst1d": SamplingMethod.BINARYSEARCHTREEADAPTED1D}[cfg["proc"]]
-    cp = CouplingMarkovChain(model=mdl, method=meth, grid=CTMCUniformGrid(h=0.1, model=mdl))
+    if cfg["proc"].startswith("cop-"):
+        from rpylib.process.coupling.couplinglevycopula import CouplingProcessLevyCopula
+        cp = CouplingProcessLevyCopula(mdl, CTMCUniformGrid(h=0.1, model=mdl), sampling_method(cfg["proc"]))
+    else:
+        cp = CouplingMarkovChain(model=mdl, method=sampling_method(cfg["proc"]), grid=CTMCUniformGrid(h=0.1, model=mdl))
     script = Script(cfg.get("ns", []), cfg.get("verdicts", []))
     conf = ConfigurationMultiLevel(convergence_rates=ConvergenceRates(1.0, 1.0, 1.0),
                                    convergence_criteria=ConvergenceCriteria(script.criteria, script.compute_mc_paths),
@@ -248,9 +308,7 @@ def run_ml(E, cfg, rng):
         evs = TR.stop()
         E["CFG"].time = E["real_time"]
         E["CFG"].os = os
-    vals = [np.asarray(s._payoff_statistics.stats)[..., 0].reshape(len(s._payoff_statistics.stats), -1)[:, 0].tolist()
-            for s in st.mc_statistics]
-    return evs, TR.collect_workers() if cfg["nproc"] != 1 else {}, vals, float(np.ravel(st.price())[0]), script
+    return evs, TR.collect_workers() if cfg["nproc"] != 1 else {}, stored_values(evs), float(np.ravel(st.price())[0]), script
 
 
 # ----------------------------------------------------------------------------------------- Coq literals
@@ -258,9 +316,9 @@ def sched_lit(sc):
     return lst([f"({blit(st == 1)}, {zlit(k)}, {blit(dec)})" for st, k, dec in sc])
 
 
-def mode_lit(cfg, dim=1):
+def mode_lit(cfg):
     fixed, nb = MODE[cfg["prod"]]
-    return f"(mkMode {blit(fixed)} {zlit(nb)} {zlit(dim)})"
+    return f"(mkMode {blit(fixed)} {zlit(nb)} {zlit(dim_of(cfg))})"
 
 
 def zll(rows):
@@ -287,7 +345,8 @@ def expected_lit(can, default_lvl=-1):
 
 
 def predicted_t(T, pid=None):
-    return ((os.getpid() if pid is None else pid) * int(T)) % M
+    """seed_of pid now of Model/Rng.v: np.random.seed([pid, now]); random.seed(pid * 2**32 + now)"""
+    return (os.getpid() if pid is None else pid) * 2 ** 32 + int(T)
 
 
 HEADER = """From Coq Require Import ZArith List Bool.
@@ -306,11 +365,31 @@ Definition chk_pool (r : list ev * list (list ev) * list sample) (ex : list (lis
 
 
 # ----------------------------------------------------------------------------------------- oracle
-def oracle(res, cfg, can, workers, vals, continuous):
+def chunk_prediction(workers):
+    """rows every chunk of a pool pops under the faithful model of the pool (every chunk unpickles its own copy of the
+    parent's deques and pops them from the left): Counter of row tags.  Uses only the arrival records of the copies
+    (creation number, first remaining row) and the number of samples of each chunk."""
+    import collections
+    pred = collections.Counter()
+    for c in workers.values():
+        starts = list(c.chunk_starts)
+        for j, a in enumerate(starts):
+            size = (starts[j + 1] if j + 1 < len(starts) else len(c.samples)) - a
+            for cid, n, first in c.chunk_arrivals[j]:
+                for r in range(first, first + min(size, n)):
+                    pred[(cid, r)] += 1
+    return pred
+
+
+def oracle(res, cfg, can, workers, stats, continuous):
     """implementation-only checks on one traced run; reports through res.violation.
+    stats = [(level, index, value tuple)] written into the statistics during the run (from the trace).
     Finding ids are attached only to the recorded classes:
       F-C08-1 draws before the seed, F-C08-2 re-seeding within a run, F-C08-4 seed 0 ignored (single process),
-      F-C08-3 rows of the parent's deques popped by several chunks of a worker pool (fixed-date mode)."""
+      F-C08-3 rows of the parent's deques popped by several chunks of a worker pool (fixed-date mode) -- only when the
+              multiset of popped rows is exactly what the copy-per-chunk model predicts (`explained`)."""
+    import collections
+
     def viol(what, finding, **kw):
         rep = {"finding": finding, "kind": "trace", "config": dict(cfg, pid=cfg.get("pid") or os.getpid())}
         rep.update(kw)
@@ -328,10 +407,13 @@ def oracle(res, cfg, can, workers, vals, continuous):
                     viol("a row popped does not belong to a deque created during the run", None, who=who, sample=k, tag=list(tg))
                 seen.setdefault(tg, []).append((who, k, s.get("it")))
     dup = {tg: v for tg, v in seen.items() if len(v) > 1}
+    observed = collections.Counter({tg: len(v) for tg, v in seen.items()})
+    explained = bool(multi and dup and observed == chunk_prediction(workers))
     if dup:
         tg = sorted(dup)[0]
         viol("a pre-drawn row is consumed by more than one sample" + (" (worker processes pop copies of the same deque)" if multi else ""),
-             "F-C08-3" if multi else None, tag=list(tg), consumers=[list(map(str, x)) for x in dup[tg]][:6], rows_shared=len(dup))
+             "F-C08-3" if explained else None, tag=list(tg), consumers=[list(map(str, x)) for x in dup[tg]][:6], rows_shared=len(dup),
+             explained_by_copy_per_chunk=explained)
     # generator states that recur after having produced variates
     for kind in ("np", "py"):
         first, hit = {}, None
@@ -346,18 +428,26 @@ def oracle(res, cfg, can, workers, vals, continuous):
             viol(f"the {'numpy' if kind == 'np' else 'python'} generator returns to a state it has already been in "
                  f"({'re-seeded to it' if hit[2] == 'seed' else 'same state reached twice'})",
                  "F-C08-2" if (not multi and hit[2] == "seed") else None, first=list(map(str, hit[0])), again=list(map(str, hit[1])), after=hit[2])
-    # samples sharing abstract positions (harness bookkeeping of the real calls)
-    used, hit = {}, None
+    # samples sharing abstract positions (harness bookkeeping of the real calls): positions stored in pre-drawn rows
+    # (explained by F-C08-3 when the popped rows are the predicted ones) and all other positions separately
+    used, hit_row, hit_other = {}, None, None
     for who, c in logs:
         for k, s in enumerate(c.samples):
             for p in s["pos"]:
-                if p in used and hit is None:
-                    hit = (p, used[p], (who, k))
+                if p in used and used[p] != (who, k):
+                    if p in prepos:
+                        hit_row = hit_row or (p, used[p], (who, k))
+                    else:
+                        hit_other = hit_other or (p, used[p], (who, k))
                 used.setdefault(p, (who, k))
-    if hit:
-        p = hit[0]
-        f = ("F-C08-3" if (p in prepos and dup) else None) if multi else ("F-C08-2" if len(can.seeds) > 1 else None)
-        viol("two samples are generated from the same variate", f, position=list(p), samples=[list(map(str, hit[1])), list(map(str, hit[2]))])
+    if hit_row:
+        f = ("F-C08-3" if explained else None) if multi else ("F-C08-2" if len(can.seeds) > 1 else None)
+        viol("two samples are generated from the same pre-drawn variate", f, position=list(hit_row[0]),
+             samples=[list(map(str, hit_row[1])), list(map(str, hit_row[2]))], explained_by_copy_per_chunk=explained)
+    if hit_other:
+        f = None if multi else ("F-C08-2" if len(can.seeds) > 1 else None)
+        viol("two samples are generated from the same variate", f, position=list(hit_other[0]),
+             samples=[list(map(str, hit_other[1])), list(map(str, hit_other[2]))])
     # the variate really compared by every coupling decision (`u < p` in coupling_state): pairwise distinct over the whole
     # run -- all samples, levels, passes and processes (catches variates served twice out of a buffer that was copied)
     byval = {}
@@ -372,18 +462,39 @@ def oracle(res, cfg, can, workers, vals, continuous):
              uniforms_reused=len(rep), coupling_decisions=sum(len(u) for u in byval.values()),
              across_levels=sum(1 for u in rep.values() if len({x[2] for x in u}) > 1))
     res.bump("coupling_decisions_per_run", min(200, sum(len(u) for u in byval.values()) // 10 * 10))
-    # duplicated sample values in the statistics (continuous payoffs only)
+    # duplicated sample values written into the statistics of one level (continuous payoffs only).  In a pool run a group
+    # of identical values is explained by F-C08-3 only if the popped rows are the predicted ones AND all samples of the
+    # group popped the very same rows (their fresh variates only select discrete CTMC states / jump counts, so equal
+    # rows can give equal values; shared fresh variates are caught by the position, state and seed checks above)
     if continuous:
-        for lvl, vs in enumerate(vals):
-            d = {}
-            for i, v in enumerate(vs):
-                d.setdefault(v, []).append(i)
+        sample_of = {}
+        for c in workers.values():
+            for sm in c.samples:
+                if sm.get("it") is not None:
+                    sample_of[sm["it"]] = sm
+        key_of = {}
+        for pool in can.pools:
+            for j, st_ in enumerate(pool["stats"]):
+                key_of[(st_[0], st_[1])] = (pool["seq"], j)
+        per = {}
+        for lvl, idx, val in stats:
+            per.setdefault(lvl, {}).setdefault(val, []).append(idx)
+        for lvl, d in per.items():
             rep = {v: ix for v, ix in d.items() if len(ix) > 1}
-            if rep:
-                v = sorted(rep, key=lambda x: -len(rep[x]))[0]
-                f = ("F-C08-3" if dup else None) if multi else ("F-C08-2" if len(can.seeds) > 1 else None)
-                viol("identical sample values stored in the statistics of one level", f,
-                     level=lvl, value=v, indices=rep[v][:8], distinct_values=len(d), samples=len(vs))
+            if not rep:
+                continue
+            v = sorted(rep, key=lambda x: -len(rep[x]))[0]
+            if multi:
+                ok = explained
+                for val, ix in rep.items():
+                    sms = [sample_of.get(key_of.get((lvl, i))) for i in ix]
+                    if any(x is None for x in sms) or len({tuple(x["rows"]) for x in sms}) != 1:
+                        ok = False
+                f = "F-C08-3" if ok else None
+            else:
+                f = "F-C08-2" if len(can.seeds) > 1 else None
+            viol("identical sample values stored in the statistics of one level", f, level=lvl, value=list(v), indices=rep[v][:8],
+                 distinct_values=len(d), samples=sum(len(ix) for ix in d.values()), explained_by_copy_per_chunk=(f == "F-C08-3"))
     # seeding discipline of a single-process run: exactly one seed, before the first draw
     if not multi:
         want = cfg["seed"] if cfg["seed"] is not None else predicted_t(cfg["T"][0] if isinstance(cfg["T"], list) else cfg["T"], cfg.get("pid"))
@@ -400,14 +511,41 @@ def oracle(res, cfg, can, workers, vals, continuous):
         first_seed = next((i for i, e in enumerate(can.events) if e[0] == 0), None)
         if first_draw is not None and (first_seed is None or first_seed > first_draw):
             viol("variates are drawn before the seed is applied", "F-C08-1", first_draw_event=first_draw, first_seed_event=first_seed)
+    else:
+        # worker processes: pairwise different seeds
+        ws = [(pid, c.seeds) for pid, c in workers.items()]
+        flat = [s_ for _, ss_ in ws for s_ in ss_]
+        if len(set(flat)) != len(flat):
+            viol("two worker processes seed their generators with the same value", None,
+                 worker_seeds=[[pid, ss_] for pid, ss_ in ws][:8], clock=cfg["T"])
+
+
+def unpopped_oracle(res, cfg, can, expected=None):
+    """single-process run: rows pre-drawn and never popped.  None may remain for the standard engine and the constant
+    multilevel run; the adaptive price() leaves exactly the rows of initialisation() and of next_level() of the added
+    levels (finding F-C08-5, `expected` = those rows as the pass structure predicts them)"""
+    created = {(e[1], r) for e in can.events if e[0] == 2 for r in range(e[2])}
+    popped = {(e[1], e[2]) for e in can.events if e[0] == 3}
+    left = sorted(created - popped)
+    if not left:
+        return
+    deqs = sorted({c for c, _ in left})
+    as_expected = expected is not None and left == sorted(expected)
+    res.violation("pre-drawn rows are never consumed (drawn and thrown away)", {
+        "finding": "F-C08-5" if as_expected else None, "kind": "trace", "config": dict(cfg, pid=cfg.get("pid") or os.getpid()),
+        "unpopped_rows": len(left), "unpopped_deques": deqs, "as_the_model_predicts": as_expected,
+        "expected_unpopped_deques": None if expected is None else sorted({c for c, _ in expected})})
 
 
 def matches_known(v, known):
-    """a listed finding only explains violations of its own class"""
+    """a listed finding only explains the violations the faithful model predicts"""
+    r = v["replay"]
+    c = r.get("config", {})
     if known["id"] == "F-C08-3":
-        c = v["replay"].get("config", {})
-        return c.get("nproc", 1) != 1 and MODE.get(c.get("prod"), (False,))[0]
-    return True
+        return c.get("nproc", 1) != 1 and MODE.get(c.get("prod"), (False,))[0] and r.get("explained_by_copy_per_chunk") is True
+    if known["id"] == "F-C08-5":
+        return c.get("engine") == "mlp" and c.get("nproc", 1) == 1 and r.get("as_the_model_predicts") is True
+    return False
 
 
 def stored_values(evs):
@@ -422,7 +560,7 @@ def repeat_oracle(res, E, cfg, runner, rng):
     out = []
     for k in range(2):     # the second run happens later (other clock value) and from another ambient generator state
         r = runner(E, dict(cfg, T=cfg["T"] + 97 * k), rng)
-        out.append((stored_values(r[0]), r[3] if cfg["engine"] != "mlp" else None))
+        out.append((r[2], r[3] if cfg["engine"] != "mlp" else None))
     if out[0] != out[1]:
         k = next((i for i, (a, b) in enumerate(zip(out[0][0], out[1][0])) if a != b), None)
         res.violation("two single-process runs with the same seed give different results", {
@@ -472,7 +610,18 @@ def mlp_case(cfg, evs, can, script):
         pos += 1
         return toks[pos - 1][1]
 
+    fixed = MODE[cfg["prod"]][0]
+    cid = [1]
+    wasted = []            # rows the pass structure says are pre-drawn and never popped (F-C08-5)
+
+    def deques(n, waste):
+        if fixed:
+            if waste:
+                wasted.extend((c, r) for c in (cid[0], cid[0] + 1) for r in range(n))
+            cid[0] += 2
+
     n0 = expect_pre()
+    deques(n0, True)
     L, cr = cfg["L0"], 1
     calls = list(script.calls)
     ci = 0
@@ -486,8 +635,10 @@ def mlp_case(cfg, evs, can, script):
             if cr <= lvl:
                 if expect_pre() != 0:
                     raise ValueError("history parse: next_level(0) expected for a level created in the first pass")
+                deques(0, False)
                 cr += 1
             n = expect_pre()
+            deques(n, False)
             cur = []
             for _ in range(n):
                 if pos >= len(toks) or toks[pos][0] != "s" or toks[pos][1] != lvl:
@@ -504,18 +655,19 @@ def mlp_case(cfg, evs, can, script):
                 L += 1
                 cr += 1
                 add = expect_pre()
+                deques(add, True)
         passes.append((levels, add))
     if pos != len(toks):
         raise ValueError(f"history parse: {len(toks) - pos} trailing tokens")
     plit = lst([f"(mkPass {lst([lst([sched_lit(sc) for sc in lv]) for lv in levels])} {opt(add, zlit)})" for levels, add in passes])
-    return f"(({opt(cfg['seed'], zlit)}, {zlit(t)}, {mode_lit(cfg)}, {zlit(n0)}, {plit}), {expected_lit(can)})", passes
+    return f"(({opt(cfg['seed'], zlit)}, {zlit(t)}, {mode_lit(cfg)}, {zlit(n0)}, {plit}), {expected_lit(can)})", passes, wasted
 
 
 def pool_case(cfg, parent, workers_can):
     """workers_can: [(pid, Canon)] sorted by pid; chunks = maximal runs of samples between two arrivals of deque copies"""
-    wseeds, chunks, xlogs, xsamples = [], [], [], []
+    pids, chunks, xlogs, xsamples = [], [], [], []
     for w, (pid, c) in enumerate(workers_can):
-        wseeds.append(predicted_t(cfg["T"], pid))
+        pids.append(pid)
         starts = c.chunk_starts if c.chunk_starts else [0]
         if starts[0] != 0:
             starts = [0] + starts
@@ -529,7 +681,14 @@ def pool_case(cfg, parent, workers_can):
     pe = [[(-1 if v is None else v) for v in e] for e in parent.events]
     LAST_EXPECTED[0] = (pe + [e for lg in xlogs for e in lg], xsamples)
     exp = f"({zll(pe)}, {lst([zll(lg) for lg in xlogs])}, {zll(xsamples)})"
-    return f"(({mode_lit(cfg)}, {zlit(cfg['n'])}, {lst([zlit(x) for x in wseeds])}, {clit}), {exp})", wseeds, chunks
+    return f"(({mode_lit(cfg)}, {zlit(cfg['n'])}, {lst([zlit(x) for x in pids])}, {zlit(int(cfg['T']))}, {clit}), {exp})", pids, chunks
+
+
+STD_PROCS = [("hem", "levy"), ("merton", "levy"), ("hem", "inv"), ("merton", "bst1d"), ("hem", "alias"), ("merton", "table"),
+             ("hem", "bst"), ("merton", "huffman"), ("hem", "table")]
+ML_PROCS = [("hem", "inv"), ("merton", "bst1d"), ("hem", "table"), ("merton", "alias"), ("hem", "huffman"), ("merton", "bst")]
+COP_PROCS = [("hem+merton", "cop-bst"), ("hem+merton", "cop-inv")]
+COLLISION_T = 13 * M        # int(time) at which (pid * now) % 123456789 = 0 for every pid
 
 
 def gen_cfgs(rng, tier):
@@ -537,48 +696,81 @@ def gen_cfgs(rng, tier):
     big = tier != "quick"
     out = {"std": [], "mlc": [], "mlp": [], "pool": [], "mlpool": []}
     seeds = [None, 0, 7, rng.randrange(1, 2 ** 31)]
-    for rep in range(8 if big else 2):
+
+    def T():
+        return rng.randrange(10 ** 9, 2 * 10 ** 9)
+
+    for rep in range(4 if big else 1):
         for prod in ("fwd1", "fwd3", "cds"):
-            for model, proc in (("hem", "levy"), ("merton", "levy"), ("hem", "inv"), ("merton", "bst1d")):
+            for model, proc in STD_PROCS:
                 for seed in seeds:
                     out["std"].append(dict(engine="std", prod=prod, model=model, proc=proc, n=rng.choice([1, 2, 3, 5, 6, 8] if big else [1, 2, 3, 5, 6]),
-                                           seed=seed, nproc=1, T=rng.randrange(10 ** 9, 2 * 10 ** 9)))
+                                           seed=seed, nproc=1, T=T()))
+        for prod in ("cfwd1", "cjmp"):      # several dates: MCLevyCopulaSimulationFixedTimes.project raises (F-C15-2)
+            for model, proc in COP_PROCS:
+                for seed in (None, 9):
+                    out["std"].append(dict(engine="std", prod=prod, model=model, proc=proc, n=rng.choice([2, 3, 5]), seed=seed, nproc=1, T=T()))
     out["std"].append(dict(engine="std", prod="fwd1", model="hem", proc="levy", n=0, seed=5, nproc=1, T=1700000000))
-    for rep in range(8 if big else 2):
+    for rep in range(4 if big else 1):
         for prod in ("fwd1", "fwd3", "cds"):
-            for model, proc in (("hem", "inv"), ("merton", "bst1d")):
+            for model, proc in ML_PROCS:
                 for seed in (None, 0, 11):
                     out["mlc"].append(dict(engine="mlc", prod=prod, model=model, proc=proc, n0=rng.choice([1, 2, 3]), L0=1,
-                                           Lmax=rng.choice([1, 2, 3]), seed=seed, nproc=1, T=rng.randrange(10 ** 9, 2 * 10 ** 9)))
-    for rep in range(10 if big else 2):
+                                           Lmax=rng.choice([1, 2, 3]), seed=seed, nproc=1, T=T()))
+        for prod in ("cfwd1", "cjmp"):      # several dates: MCLevyCopulaSimulationFixedTimes.project raises (F-C15-2)
+            for model, proc in COP_PROCS:
+                out["mlc"].append(dict(engine="mlc", prod=prod, model=model, proc=proc, n0=rng.choice([2, 3]), L0=1, Lmax=rng.choice([1, 2]),
+                                       seed=rng.choice([None, 11]), nproc=1, T=T()))
+
+    def history(n0):
+        vec = [n0] * 6
+        ns = []
+        for _ in range(rng.choice([2, 3, 4, 5])):
+            vec = [v + rng.choice([0, 0, 0, 1, 2]) for v in vec]
+            ns.append(list(vec))
+        return ns, [rng.random() < 0.35 for _ in range(4)]
+
+    for rep in range(5 if big else 1):
         for prod in ("fwd1", "fwd3", "cds"):
-            for model, proc in (("hem", "inv"), ("merton", "bst1d")):
+            for model, proc in ML_PROCS:
                 for seed in (None, 0, 13):
-                    L0 = rng.choice([1, 2])
-                    n0 = rng.choice([1, 2, 3])
-                    vec = [n0] * 6
-                    ns = []
-                    for _ in range(rng.choice([2, 3, 4, 5])):
-                        vec = [v + rng.choice([0, 0, 0, 1, 2]) for v in vec]
-                        ns.append(list(vec))
-                    verdicts = [rng.random() < 0.35 for _ in range(4)]
+                    L0, n0 = rng.choice([1, 2]), rng.choice([1, 2, 3])
+                    ns, verdicts = history(n0)
                     out["mlp"].append(dict(engine="mlp", prod=prod, model=model, proc=proc, n0=n0, L0=L0, Lmax=L0 + rng.choice([0, 1, 2]),
-                                           seed=seed, nproc=1, T=rng.randrange(10 ** 9, 2 * 10 ** 9), ns=ns, verdicts=verdicts))
+                                           seed=seed, nproc=1, T=T(), ns=ns, verdicts=verdicts))
+        for prod in ("cfwd1", "cjmp"):      # several dates: MCLevyCopulaSimulationFixedTimes.project raises (F-C15-2)
+            for model, proc in COP_PROCS:
+                L0, n0 = 1, rng.choice([2, 3])
+                ns, verdicts = history(n0)
+                out["mlp"].append(dict(engine="mlp", prod=prod, model=model, proc=proc, n0=n0, L0=L0, Lmax=L0 + rng.choice([0, 1]),
+                                       seed=rng.choice([None, 13]), nproc=1, T=T(), ns=ns, verdicts=verdicts))
     for prod, model, proc in (("fwd3", "hem", "inv"), ("cds", "merton", "bst1d"), ("fwd1", "hem", "bst1d")) * (3 if big else 1):
         n0 = rng.choice([4, 5, 6])
         out["mlp"].append(dict(engine="mlp", prod=prod, model=model, proc=proc, n0=n0, L0=2, Lmax=3, seed=rng.choice([None, 21]), nproc=1,
-                               T=rng.randrange(10 ** 9, 2 * 10 ** 9), ns=[[n0 + 3] * 3, [n0 + 5] * 3, [n0 + 5, n0 + 5, n0 + 5, 4], [n0 + 6, n0 + 6, n0 + 7, 6]],
+                               T=T(), ns=[[n0 + 3] * 3, [n0 + 5] * 3, [n0 + 5, n0 + 5, n0 + 5, 4], [n0 + 6, n0 + 6, n0 + 7, 6]],
                                verdicts=[False, True]))
-    for rep in range(6 if big else 2):
+    for rep in range(3 if big else 1):
         for prod in ("fwd1", "fwd3", "cds"):
             for nproc in (2, 4):
-                for model, proc in (("hem", "levy"), ("merton", "inv")):
+                for model, proc in (("hem", "levy"), ("merton", "inv"), ("hem", "table")):
                     out["pool"].append(dict(engine="std", prod=prod, model=model, proc=proc, n=rng.choice([3, 5, 8, 9, 17]),
-                                            seed=rng.choice([None, 5]), nproc=nproc, T=rng.randrange(10 ** 9, 2 * 10 ** 9)))
+                                            seed=rng.choice([None, 5]), nproc=nproc, T=T()))
+    # the clock value at which the former seed (pid * now) % 123456789 was 0 for every worker; a 2-d process; all cores
+    for prod, nproc in (("cds", 2), ("cds", 4), ("fwd1", 2), ("cjmp", 3)):
+        model, proc = ("hem+merton", "cop-inv") if prod == "cjmp" else ("hem", "levy")
+        out["pool"].append(dict(engine="std", prod=prod, model=model, proc=proc, n=9, seed=None, nproc=nproc, T=COLLISION_T))
+    out["pool"].append(dict(engine="std", prod="cfwd1", model="hem+merton", proc="cop-bst", n=5, seed=None, nproc=2, T=T()))
+    if big:
+        out["pool"].append(dict(engine="std", prod="cds", model="hem", proc="levy", n=20, seed=None, nproc=None, T=COLLISION_T))
+    # multilevel engine with pools (compute_level_l builds one pool per level and pass): oracle only
     out["mlpool"] = [dict(engine="mlc", prod="fwd1", model="hem", proc="inv", n0=4, L0=1, Lmax=1, seed=None, nproc=2, T=1700000001),
-                     dict(engine="mlc", prod="cds", model="hem", proc="inv", n0=3, L0=1, Lmax=1, seed=None, nproc=2, T=1700000002),
+                     dict(engine="mlc", prod="cds", model="hem", proc="inv", n0=3, L0=1, Lmax=1, seed=5, nproc=2, T=COLLISION_T),
+                     dict(engine="mlc", prod="cjmp", model="hem+merton", proc="cop-inv", n0=3, L0=1, Lmax=1, seed=5, nproc=2, T=COLLISION_T),
+                     dict(engine="mlc", prod="fwd3", model="merton", proc="table", n0=3, L0=1, Lmax=2, seed=7, nproc=4, T=T()),
                      dict(engine="mlp", prod="fwd3", model="merton", proc="bst1d", n0=3, L0=1, Lmax=2, seed=None, nproc=2, T=1700000003,
-                          ns=[[3, 3, 3], [4, 3, 3], [4, 3, 5]], verdicts=[False, True])]
+                          ns=[[3, 3, 3], [4, 3, 3], [4, 3, 5]], verdicts=[False, True]),
+                     dict(engine="mlp", prod="cds", model="hem", proc="alias", n0=3, L0=1, Lmax=2, seed=3, nproc=2, T=COLLISION_T,
+                          ns=[[3, 3, 3], [4, 4, 3], [4, 4, 5]], verdicts=[False, True])]
     return out
 
 
@@ -593,14 +785,33 @@ def fresh(cfg):
 def process_run(res, E, group, cfg, rng):
     """one traced run: oracle on the implementation + the Coq case (or None)"""
     rt = E["rt"]
+    cont = cfg["prod"] in CONTINUOUS
 
     def note_problems(can, who="parent"):
         if can.problems and sum(1 for b in res.broken if b["obligation"] == "correspondence trace well-formedness") < 12:
             res.broke("correspondence trace well-formedness",
                       f"{len(can.problems)} problem(s), first: {can.problems[0]} [{who}] config={cfg}")
 
+    def bumps(can):
+        res.bump("process", cfg["proc"])
+        res.bump("dimension", dim_of(cfg))
+        res.bump("python_stream_draws", min(20, sum(k for s in can.samples for st, k, _d in s["sched"] if st == 1) // 5 * 5))
+
+    def worker_canons(parent, wl):
+        wcan = []
+        for pid in sorted(wl):
+            c = rt.canonical(wl[pid], rowpos=parent.rowpos)
+            if not c.samples and not c.seeds:
+                continue        # a worker the pool terminated while it was still in its initializer: it simulated nothing
+            note_problems(c, who=f"worker {pid}")
+            wcan.append((pid, c))
+            if c.seeds != [predicted_t(cfg["T"], pid)] and sum(1 for b in res.broken if b["obligation"] == "correspondence pool initializer") < 6:
+                res.broke("correspondence pool initializer", f"worker {pid} seeded with {c.seeds}, the model predicts "
+                                                             f"seed_of pid now = pid * 2**32 + now = {predicted_t(cfg['T'], pid)} config={cfg}")
+        return wcan
+
     if group == "std":
-        evs, _, vals, price = run_std(E, cfg, rng)
+        evs, _, stats, price = run_std(E, cfg, rng)
         can = rt.canonical(evs)
         note_problems(can)
         nt = len(can.samples) >= 2 and any(k > 0 for s in can.samples for _, k, _d in s["sched"])
@@ -608,44 +819,44 @@ def process_run(res, E, group, cfg, rng):
         res.bump("seed_kind", "None" if cfg["seed"] is None else ("0" if cfg["seed"] == 0 else "k"))
         res.bump("samples_per_run", len(can.samples))
         res.bump("fresh_draws_per_run", min(50, sum(k for s in can.samples for _, k, _d in s["sched"]) // 5 * 5))
-        oracle(res, cfg, can, {}, vals, continuous=cfg["prod"] != "cds")
+        bumps(can)
+        oracle(res, cfg, can, {}, stats, continuous=cont)
+        unpopped_oracle(res, cfg, can)
         return std_case(cfg, can)
     if group == "mlc":
-        evs, _, vals, price, _ = run_ml(E, cfg, rng)
+        evs, _, stats, price, _ = run_ml(E, cfg, rng)
         can = rt.canonical(evs)
         note_problems(can)
         nt = len(can.samples) >= 2 and any(k > 0 for s in can.samples for _, k, _d in s["sched"])
         res.count(("mlc", str(cfg), len(can.events)), nontrivial=nt, kind=f"mlc/{cfg['prod']}/{cfg['proc']}")
         res.bump("levels", cfg["Lmax"] + 1)
-        oracle(res, cfg, can, {}, vals, continuous=False)
+        bumps(can)
+        oracle(res, cfg, can, {}, stats, continuous=cont)
+        unpopped_oracle(res, cfg, can)
         return mlc_case(cfg, can)
     if group == "mlp":
-        evs, _, vals, price, script = run_ml(E, fresh(cfg), rng)
+        evs, _, stats, price, script = run_ml(E, fresh(cfg), rng)
         can = rt.canonical(evs)
         note_problems(can)
-        oracle(res, cfg, can, {}, vals, continuous=False)
+        oracle(res, cfg, can, {}, stats, continuous=cont)
         try:
-            case, passes = mlp_case(cfg, evs, can, script)
+            case, passes, wasted = mlp_case(cfg, evs, can, script)
         except ValueError as e:
             res.broke("correspondence mlp history", f"{e} config={cfg}")
+            unpopped_oracle(res, cfg, can)
             return None
+        unpopped_oracle(res, cfg, can, expected=wasted)
         nt = len(can.samples) >= 2 and any(k > 0 for s in can.samples for _, k, _d in s["sched"]) and len(passes) >= 2
         res.count(("mlp", str(cfg), len(can.events)), nontrivial=nt, kind=f"mlp/{cfg['prod']}/{cfg['proc']}")
         res.bump("passes", len(passes))
         res.bump("levels_added", sum(1 for _, a in passes if a is not None))
+        bumps(can)
         return case
     if group == "pool":
-        evs, wl, vals, price = run_std(E, cfg, rng)
+        evs, wl, stats, price = run_std(E, cfg, rng)
         parent = rt.canonical(evs)
         note_problems(parent)
-        wcan = []
-        for pid in sorted(wl):
-            c = rt.canonical(wl[pid], rowpos=parent.rowpos)
-            note_problems(c, who=f"worker {pid}")
-            wcan.append((pid, c))
-            if c.seeds != [predicted_t(cfg["T"], pid)]:
-                res.broke("correspondence pool initializer", f"worker {pid} seeded with {c.seeds}, model predicts "
-                                                             f"[(pid*int(time)) % 123456789] = {predicted_t(cfg['T'], pid)}")
+        wcan = worker_canons(parent, wl)
         total = sum(len(c.samples) for _, c in wcan)
         if total != cfg["n"]:
             res.broke("correspondence pool", f"{total} samples traced in the workers for mc_paths={cfg['n']} config={cfg}")
@@ -654,14 +865,17 @@ def process_run(res, E, group, cfg, rng):
                   kind=f"pool{cfg['nproc']}/{cfg['prod']}/{cfg['proc']}")
         res.bump("chunks", len(chunks))
         res.bump("workers_used", len(wcan))
-        oracle(res, cfg, parent, dict(wcan), vals, continuous=cfg["prod"] != "cds")
+        res.bump("pool_clock", "k*123456789" if cfg["T"] % M == 0 else "random")
+        oracle(res, cfg, parent, dict(wcan), stats, continuous=cont)
         return case
     if group == "mlpool":   # multilevel engine with pools: oracle only (compute_level_l builds the same pool per level)
-        evs, wl, vals, price, _ = run_ml(E, fresh(cfg), rng)
+        evs, wl, stats, price, _ = run_ml(E, fresh(cfg), rng)
         parent = rt.canonical(evs)
-        wcan = {pid: rt.canonical(wl[pid], rowpos=parent.rowpos) for pid in sorted(wl)}
-        res.count(("mlpool", str(cfg)), kind=f"{cfg['engine']}-pool/{cfg['prod']}")
-        oracle(res, cfg, parent, wcan, vals, continuous=False)
+        note_problems(parent)
+        wcan = worker_canons(parent, wl)
+        res.count(("mlpool", str(cfg), len(wcan)), nontrivial=len(wcan) >= 2, kind=f"{cfg['engine']}-pool/{cfg['prod']}")
+        res.bump("pool_clock", "k*123456789" if cfg["T"] % M == 0 else "random")
+        oracle(res, cfg, parent, dict(wcan), stats, continuous=cont)
         return None
     raise ValueError(group)
 
@@ -675,8 +889,8 @@ COQ_GROUPS = {
             "fun c => let '(sd, t, m, n0, lv, ex) := c in chk (mlc_ops sd t m n0 lv) ex"),
     "mlp": ("(option Z * Z * mode * Z * list pass) * (list (list Z) * list (list Z))",
             "fun c => let '(sd, t, m, n0, ps, ex) := c in chk (mlp_ops sd t m n0 ps) ex"),
-    "pool": ("(mode * Z * list Z * list (nat * list sched)) * (list (list Z) * list (list (list Z)) * list (list Z))",
-             "fun c => let '(m, n, ws, ch, ex) := c in chk_pool (pool_run (mkGen (-1) 0 0) m n ws ch) ex"),
+    "pool": ("(mode * Z * list Z * Z * list (nat * list sched)) * (list (list Z) * list (list (list Z)) * list (list Z))",
+             "fun c => let '(m, n, pids, now, ch, ex) := c in chk_pool (pool_run_pids (mkGen (-1) 0 0) m n pids now ch) ex"),
 }
 
 
@@ -684,7 +898,7 @@ MODEL_TERM = {
     "std": "let '(sd, t, m, ss, ex) := c in let '(es, sm, _) := run (std_ops sd t m ss) amb in (map enc_ev es, map enc_sample sm)",
     "mlc": "let '(sd, t, m, n0, lv, ex) := c in let '(es, sm, _) := run (mlc_ops sd t m n0 lv) amb in (map enc_ev es, map enc_sample sm)",
     "mlp": "let '(sd, t, m, n0, ps, ex) := c in let '(es, sm, _) := run (mlp_ops sd t m n0 ps) amb in (map enc_ev es, map enc_sample sm)",
-    "pool": "let '(m, n, ws, ch, ex) := c in let '(pe, logs, sm) := pool_run (mkGen (-1) 0 0) m n ws ch in "
+    "pool": "let '(m, n, pids, now, ch, ex) := c in let '(pe, logs, sm) := pool_run_pids (mkGen (-1) 0 0) m n pids now ch in "
             "(map enc_ev pe ++ concat (map (map enc_ev) logs), map enc_sample sm)",
 }
 
